@@ -30,6 +30,7 @@ pub open spec fn l2_props(d: u8) -> Option<(nat, nat, nat)> {
 
 /// one LZMA chunk (control >= 0x80) starting at `rem` (rem[0] is the control byte).
 /// Returns (bytes of `rem` consumed, model after, window after).
+#[verifier::opaque]
 pub open spec fn sp_lzma2_lzma_chunk(rem: Seq<u8>, m: LzS, w: Win) -> Option<(nat, LzS, Win)> {
     let c = rem[0];
     if rem.len() < 5 { None }
@@ -63,6 +64,7 @@ pub open spec fn sp_lzma2_lzma_chunk(rem: Seq<u8>, m: LzS, w: Win) -> Option<(na
 pub open spec fn min_nat2(a: nat, b: nat) -> nat { if a <= b { a } else { b } }
 
 /// the whole LZMA2 stream from `rem` on: returns (bytes consumed including the end byte, final window)
+#[verifier::opaque]
 pub open spec fn sp_lzma2(rem: Seq<u8>, m: LzS, w: Win) -> Option<(nat, LzS, Win)>
     decreases rem.len()
 {
@@ -99,4 +101,30 @@ pub open spec fn sp_lzma2(rem: Seq<u8>, m: LzS, w: Win) -> Option<(nat, LzS, Win
             }
         }
     }
+}
+
+/// one unfolding of sp_lzma2, as separate implications
+pub proof fn lemma_l2_step(rem: Seq<u8>, m: LzS, w: Win)
+    ensures
+        rem.len() == 0 ==> sp_lzma2(rem, m, w) is None,
+        rem.len() > 0 && rem[0] == 0 ==> sp_lzma2(rem, m, w) == Some((1nat, m, w)),
+        rem.len() > 0 && (rem[0] == 1 || rem[0] == 2) ==> ({
+            let n: nat = be16(rem.skip(1)) as nat + 1;
+            let w1 = if rem[0] == 1 { win_reset(w) } else { w };
+            if rem.len() < 3 || rem.len() < 3 + n { sp_lzma2(rem, m, w) is None }
+            else {
+                sp_lzma2(rem, m, w) == (match sp_lzma2(rem.skip(3 + n as int), m, win_append(w1, rem.subrange(3, 3 + n as int))) {
+                    None => None, Some((k, m3, w3)) => Some((3 + n + k, m3, w3)) })
+            }
+        }),
+        rem.len() > 0 && 3 <= rem[0] < 0x80 ==> sp_lzma2(rem, m, w) is None,
+        rem.len() > 0 && rem[0] >= 0x80 ==> (match sp_lzma2_lzma_chunk(rem, m, w) {
+            None => sp_lzma2(rem, m, w) is None,
+            Some((k1, m2, w2)) =>
+                if k1 == 0 || k1 > rem.len() { sp_lzma2(rem, m, w) is None }
+                else { sp_lzma2(rem, m, w) == (match sp_lzma2(rem.skip(k1 as int), m2, w2) {
+                    None => None, Some((k, m3, w3)) => Some((k1 + k, m3, w3)) }) },
+        }),
+{
+    reveal_with_fuel(sp_lzma2, 2);
 }
